@@ -120,6 +120,16 @@ def g3_lcp_chain(rng, lcp, count=3):
     return sorted(base + t for t in tails)
 
 
+def g3_common_tail(rng, n, keylen, taillen):
+    """Pairs `k`, `k + TAIL` with one long tail shared by every pair: with small buckets every
+    internal string has the same front-coded form, which a grammar compressor folds into one long rule."""
+    tail = bytes(rng.choice(ALPHABETS[26]) for _ in range(taillen))
+    keys = set()
+    while len(keys) < n:
+        keys.add(bytes(rng.choice(ALPHABETS[26]) for _ in range(keylen)))
+    return sorted([k for k in keys] + [k + tail for k in keys])
+
+
 def g3_single_symbols(k):
     return [bytes([0x61 + i]) for i in range(k)]
 
@@ -162,6 +172,18 @@ def queries_members_and_neighbours(rng, S, cap):
     if absent_hi is not None:
         non.append(bytes([absent_hi, absent_hi]))
         non.append(S[-1] + bytes([absent_hi]))
+    # the byte right above the alphabet (Re-Pair kinds use it as their string terminator)
+    mc = max(used) + 1 if used else 0
+    if 2 <= mc <= 254:
+        non.append(bytes([mc]))
+        for s in (members if len(members) <= 4 else rng.sample(members, 4)):
+            non.append(s + bytes([mc]))
+            t = rng.choice(S)
+            non.append(s + bytes([mc]) + t)
+        if len(S) <= 6:
+            for s in S:
+                for t in S:
+                    non.append(s + bytes([mc]) + t)
     # keep non-members among the "non" list as they are (some may be members: fine, the oracle decides)
     seen = set()
     out = []
